@@ -551,10 +551,15 @@ pub fn gen_c08_pairs(ch: &mut Chunker, r: &mut Rng, scale: usize) {
     for i in 0..350 * scale {
         let tc = TextCfg { max_words: 6, max_paras: 3, ansi: if i % 4 == 0 { Ansi::WellFormed } else { Ansi::None }, unicode: true, ctrl: false, crlf: false };
         let text = if i % 6 == 0 { gen_alpha(r, ALPHA_WRAP, 12) } else { gen_text(r, &tc) };
-        let ci = r.pick(classes);
-        let cs = r.pick(classes);
-        let (ii1, ii2) = (r.pick(ci).to_string(), r.pick(ci).to_string());
-        let (si1, si2) = (r.pick(cs).to_string(), r.pick(cs).to_string());
+        // partner indents are chosen by the oracle width of this feature build (equal width, equal emptiness)
+        let all: Vec<&str> = classes.iter().flat_map(|c| c.iter().copied()).collect();
+        let partner = |r: &mut Rng, x: &str| -> String {
+            let c: Vec<&str> = all.iter().copied().filter(|y| display_width_oracle(y) == display_width_oracle(x) && y.is_empty() == x.is_empty()).collect();
+            r.pick(&c).to_string()
+        };
+        let ii1 = r.pick(&all).to_string();
+        let si1 = r.pick(&all).to_string();
+        let (ii2, si2) = (partner(r, &ii1), partner(r, &si1));
         let widths = widths_for(r, &text, &ii1, &si1, false);
         for _ in 0..4 {
             let w_ = *r.pick(&widths);
